@@ -113,9 +113,13 @@ def drive(g):
     return out
 
 
+CUSTOM_OPERATIONS = "+custom-operations"     # pseudo entry of a combination: the same plugins next to enable_custom_operations
+
+
 def _generate(plugins):
-    return generate_client(SCHEMA, QUERIES, plugins=[PLUGINS[p] for p in plugins],
-                           scalars={"DateTime": {"type": "datetime.datetime"}})
+    opts = dict(enable_custom_operations=True) if CUSTOM_OPERATIONS in plugins else {}
+    return generate_client(SCHEMA, QUERIES, plugins=[PLUGINS[p] for p in plugins if p != CUSTOM_OPERATIONS],
+                           scalars={"DateTime": {"type": "datetime.datetime"}}, **opts)
 
 
 def run_isolated(plugins):
@@ -202,6 +206,9 @@ def check_combo(plugins, baseline=None):
         if unresolved:
             rep["failed"].append("client-annotations-resolve")
             rep["outcome"]["unresolved"] = unresolved
+        if CUSTOM_OPERATIONS in plugins:
+            for m in ("custom_fields", "custom_queries"):
+                g.module(m)
         if "ExtractOperations" in plugins and "operations.py" not in g.files:
             rep["failed"].append("operations-module-written")
         if "NoReimports" in plugins and g.read("__init__.py").strip():
@@ -220,9 +227,10 @@ def combos(tier):
     names = list(PLUGINS)
     out = [(n,) for n in names]
     out += [("NoReimports", "ExtractOperations"), ("ExtractOperations", "NoReimports"), ("ShorterResults", "ExtractOperations"),
-            ("ExtractOperations", "ShorterResults"), ("ShorterResults", "ClientForwardRefs"), ("ClientForwardRefs", "ShorterResults")]
+            ("ExtractOperations", "ShorterResults"), ("ShorterResults", "ClientForwardRefs"), ("ClientForwardRefs", "ShorterResults"),
+            ("ClientForwardRefs", CUSTOM_OPERATIONS), ("ShorterResults", "ExtractOperations", CUSTOM_OPERATIONS)]
     if tier == "thorough":
-        out = [c for n in range(1, 5) for c in itertools.permutations(names, n)]
+        out = [c for n in range(1, 5) for c in itertools.permutations(names, n)] + [(n, CUSTOM_OPERATIONS) for n in names]
     return out
 
 
